@@ -63,6 +63,7 @@ for _m in ["GET", "HEAD", "POST", "PUT", "DELETE", "CONNECT", "OPTIONS", "TRACE"
 CTORS.update({("Phase", "SendLine"): ("PLine", None), ("Phase", "SendHeaders"): ("PHeaders", "usize"), ("Phase", "SendBody"): ("PBody", None),
               ("Phase", "RecvResponse"): ("PRecvResponse", None), ("Phase", "RecvBody"): ("PRecvBody", None)})
 CTORS.update(dict((("CloseReason", r), (r, None)) for r in ("Http10", "ClientConnectionClose", "ServerConnectionClose", "Not100Continue", "CloseDelimitedBody")))
+CTORS.update({("CallHolder", "WithoutBody"): ("HvWithoutBody", "Phase"), ("CallHolder", "WithBody"): ("HvWithBody", "Phase")})
 CTORS.update({("Status", "Complete"): ("HpComplete", "usize"), ("Status", "Partial"): ("HpPartial", None)})
 CTORS.update({("RedirectAuthHeaders", "Never"): ("Never", None), ("RedirectAuthHeaders", "SameHost"): ("SameHost", None)})
 ENUM_EQB = {"Dechunker": "dechunker_eqb", "Method": "method_eqb"}
@@ -1604,6 +1605,8 @@ Definition set_header_list (added : list header) (k v : bytes) : res (list heade
 (* src/parser.rs works on what httparse returns: the outcome of parse() and the fields of the Response / Request it filled in.
    The http builder keeps version, status (or method) and the fields added so far; body(()) fails on a name it does not accept
    (Parser.builder_ok) and otherwise yields the model's response with the HeaderMap of those fields. *)
+(* what Flow<SendRequest>::can_proceed sees of the call holder: the variant and, for the two sending calls, the phase *)
+Inductive holder_view := HvWithoutBody (p : phase) | HvWithBody (p : phase) | HvOther.
 (* a store into a fixed-size array: index out of bounds panics *)
 Fixpoint list_set {T : Type} (l : list T) (i : N) (v : T) : list T :=
   match l with
@@ -2022,6 +2025,28 @@ FLOWFUNCS = [
     dict(coq="gen_arrayvec_deref", file="src/util.rs", impl=r"impl<T, const N: usize>\s+Deref for ArrayVec<T, N>", rust="deref", kind="plain",
          subst=[(r"self\.arr", "arr"), (r"self\.len", "len")],
          params=[("T", "val", "Type", None), ("len", "val", "N", None), ("arr", "val", "list T", None)], rust_ret="&[T]"),
+    # src/client/call.rs / flow.rs: the tests behind the can_proceed functions of the sending and response states, and the guard of
+    # the conversion to the receiving call
+    dict(coq="gen_phase_is_prelude", file="src/client/call.rs", impl=r"impl Phase", rust="is_prelude", kind="plain",
+         subst=[(r"matches!\(self,", "matches!(phase,")], params=[("phase", "val", "phase", "Phase")], rust_ret="bool"),
+    dict(coq="gen_phase_is_body", file="src/client/call.rs", impl=r"impl Phase", rust="is_body", kind="plain",
+         subst=[(r"matches!\(self,", "matches!(phase,")], params=[("phase", "val", "phase", "Phase")], rust_ret="bool"),
+    dict(coq="gen_call_wob_is_finished", file="src/client/call.rs", impl=r"impl<B>\s+Call<WithoutBody,\s*B>", rust="is_finished", kind="plain",
+         subst=[(r"self\.state\.phase", "phase")], params=[("phase", "val", "phase", "Phase")],
+         methods={"is_prelude": "gen_phase_is_prelude"}, rust_ret="bool"),
+    dict(coq="gen_call_wb_is_finished", file="src/client/call.rs", impl=r"impl<B>\s+Call<WithBody,\s*B>", rust="is_finished", kind="plain",
+         subst=[(r"self\.state\.writer", "writer")], params=[("writer", "recmut:BodyWriter", "", None)], rust_ret="bool"),
+    dict(coq="gen_call_rr_is_finished", file="src/client/call.rs", impl=r"impl<B>\s+Call<RecvResponse,\s*B>", rust="is_finished", kind="plain",
+         subst=[(r"self\.state\.reader", "reader")], params=[("reader", "val", "option reader", None)], rust_ret="bool"),
+    dict(coq="gen_do_into_receive", file="src/client/call.rs", impl=r"impl<State, B>\s+Call<State,\s*B>", rust="do_into_receive",
+         subst=[(r"self\.state\.writer", "writer"), (r"(?s)Ok\(Call \{.*?_ph: PhantomData,\s*\}\)", "Ok(())")],
+         params=[("writer", "recmut:BodyWriter", "", None)], rust_ret="Result<(), Error>"),
+    dict(coq="gen_call_into_body", file="src/client/call.rs", impl=r"impl<B>\s+Call<RecvResponse,\s*B>", rust="into_body",
+         subst=[(r"&self\.state\.reader", "reader"), (r"let next = self\.do_into_body\(\);", ""), (r"Ok\(Some\(next\)\)", "Ok(Some(()))")],
+         params=[("reader", "val", "option reader", None)], rust_ret="Result<Option<()>, Error>"),
+    dict(coq="gen_send_request_can_proceed", file="src/client/flow.rs", impl=r"impl<B>\s+Flow<B,\s*SendRequest>", rust="can_proceed",
+         subst=[(r"&self\.inner\.call", "holder")], params=[("holder", "val", "holder_view", None)],
+         methods={"is_finished": "gen_call_wob_is_finished", "is_body": "gen_phase_is_body"}, rust_ret="bool"),
     # src/ext.rs: HeaderIterExt::has (the test behind `Connection: close` and `Expect: 100-continue`): some field with that name has that value
     dict(coq="gen_headers_has", file="src/ext.rs", impl=None, rust="has", kind="plain", bytes_vars=["key", "value"],
          subst=[(r"self\s*\.filter", "headers.iter().filter")],
